@@ -248,7 +248,7 @@ def _explain(tr, pos, clause):
                 and vint / 4 <= crit * (1 + 1e-3) + 1e-12)
             r = crit / e["viol"] if e["viol"] > 0 else float("inf")
             out["crit_over_viol"] = r
-            out["ratio_band"] = "<=4x" if 0.25 <= r <= 4.0 else ">4x"
+            out["ratio_band"] = "<=4x" if 0.25 <= r <= 4.0 else ("<=64x" if 1 / 64 <= r <= 64.0 else ">64x")
         except Exception:  # noqa: BLE001
             pass
     return out
